@@ -365,6 +365,12 @@ class Prog:
         if how == "restart" or old is None:
             self.restart()
             return "restart"
+        if how == "reimport":
+            # the same process forgets the program's modules and imports them again (a test runner, a notebook that purges
+            # sys.modules to pick up edits): new module and function objects, dds's own state stays
+            self.purge()
+            self._helper_fresh = False
+            return "reimport"
         diff = [k for k in variant if variant[k] != old.get(k)]
         only_vars = diff and all(any(v["name"] == k and v.get("access") != "alias" for v in self.spec["vars"]) for k in diff)
         # (a variable imported under another name cannot be updated by assigning the original name: such edits are reloads)
